@@ -148,6 +148,13 @@ def spanDigits : List Byte → List Byte → List Byte → List Byte × List Byt
   | ds, l, [] => (ds.reverse, l, [])
   | ds, l, c :: r => if isDigit c then spanDigits (c :: ds) (c :: l) r else (ds.reverse, l, c :: r)
 
+/-- optional sign: (negative, consumed side, rest) -/
+def takeSign (left right : List Byte) : Bool × List Byte × List Byte :=
+  match right with
+  | 45 :: r => (true, 45 :: left, r)
+  | 43 :: r => (false, 43 :: left, r)
+  | _ => (false, left, right)
+
 /-- result of the `num_get` stage for integers: value stored, and whether `failbit` is raised -/
 structure IntResult where
   value : Int
@@ -157,13 +164,9 @@ deriving Repr, DecidableEq
 /-- `num_get::_M_extract_int` in base 10 for a signed type with range `[lo, hi]`: optional sign, all digits,
     failure when there is no digit, clamp + failure on overflow -/
 def scanInt (lo hi : Int) (left right : List Byte) : IntResult × List Byte × List Byte :=
-  let (neg, l1, r1) : Bool × List Byte × List Byte :=
-    match right with
-    | 45 :: r => (true, 45 :: left, r)
-    | 43 :: r => (false, 43 :: left, r)
-    | _ => (false, left, right)
+  let (neg, l1, r1) := takeSign left right
   let (ds, l2, r2) := spanDigits [] l1 r1
-  let n : Int := Int.ofNat (digitsVal ds 0)
+  let n : Int := ((digitsVal ds 0 : Nat) : Int)
   let res : IntResult :=
     if ds.isEmpty then ⟨0, true⟩
     else if neg then (if -n < lo then ⟨lo, true⟩ else ⟨-n, false⟩)
